@@ -37,6 +37,7 @@ static int LOG_ON = 0; static atomic_long IDLE;
 static __thread int self_pnum = -1;
 static __thread int pending_loop = 0;
 static int PERT = 0; static unsigned PSEED = 1; static __thread unsigned prs = 0;
+static char FOCUS[32]; static int FOCUS_PCT = 0, FOCUS_US = 0;
 
 int  slu_verif_self(void) { return self_pnum; }
 void slu_verif_set_self(int p) { self_pnum = p; pending_loop = 0; prs = 0; }
@@ -63,6 +64,8 @@ long vrt_log_count(void) { long n = atomic_load(&SEQ); return n > EVCAP ? EVCAP 
 int  vrt_log_overflowed(void) { return atomic_load(&OVER); }
 long vrt_idle_polls(void) { return atomic_load(&IDLE); }
 void vrt_perturb(int percent, unsigned seed) { PERT = percent; PSEED = seed ? seed : 1; }
+/* widen the window after one kind of event: sleep usec with probability pct after each event called name */
+void vrt_perturb_focus(const char *name, int pct, int usec) { strncpy(FOCUS, name ? name : "", 31); FOCUS_PCT = pct; FOCUS_US = usec; }
 
 static void perturb(int p)
 {
@@ -110,6 +113,11 @@ void slu_verif_ev(const char *name, int pnum, int nargs, const long *args,
 	}
     }
     emit(name, pnum, nargs, args, list, (long) nlist);
+    if (FOCUS_PCT && FOCUS[0] == name[0] && !strcmp(FOCUS, name)) {
+	if (!prs) prs = PSEED * 2654435761u + (unsigned)(pnum + 2) * 40503u + 1u;
+	prs = prs * 1103515245u + 12345u;
+	if ((int) ((prs >> 16) % 100) < FOCUS_PCT) usleep(FOCUS_US);
+    }
     perturb(pnum);
 }
 
@@ -138,6 +146,22 @@ void vrt_log_dump(FILE *f)
 	for (i = 0; i < x->nlist; ++i) fprintf(f, "%s%ld", i ? "," : "", x->l[i]);
 	fprintf(f, "]}\n");
     }
+}
+
+/* With -Wl,--wrap=pthread_mutex_unlock every unlock made by a library worker thread becomes a
+   perturbation point: the window right after a critical section is where the races live. */
+extern int __real_pthread_mutex_unlock(pthread_mutex_t *) __attribute__((weak));
+int __wrap_pthread_mutex_unlock(pthread_mutex_t *m)
+{
+    int r = __real_pthread_mutex_unlock(m);
+    if (self_pnum >= 0 && (PERT || FOCUS_PCT)) {
+	if (FOCUS_PCT && !strcmp(FOCUS, "unlock")) {
+	    if (!prs) prs = PSEED * 2654435761u + (unsigned)(self_pnum + 2) * 40503u + 1u;
+	    prs = prs * 1103515245u + 12345u;
+	    if ((int) ((prs >> 16) % 100) < FOCUS_PCT) usleep(FOCUS_US);
+	} else perturb(self_pnum);
+    }
+    return r;
 }
 
 /* ------------------------------------------------------------------ allocation tracking */
@@ -254,5 +278,12 @@ static int count_dir(const char *d)
     closedir(dp);
     return n;
 }
-int vrt_thread_count(void) { return count_dir("/proc/self/task"); }
+/* A joined thread can linger in /proc/self/task for a moment after pthread_join has returned
+   (the kernel wakes the joiner before the task is unhashed): wait up to 200 ms for the count to settle. */
+int vrt_thread_count(void)
+{
+    int n = count_dir("/proc/self/task"), k;
+    for (k = 0; k < 400 && n > 1; ++k) { usleep(500); n = count_dir("/proc/self/task"); }
+    return n;
+}
 int vrt_fd_count(void) { int n = count_dir("/proc/self/fd"); return n > 0 ? n - 1 : n; /* minus the DIR's own fd */ }
